@@ -1,0 +1,57 @@
+/*
+ * Verification hooks (compiled in only with -DXERCES_VERIF_HOOKS).
+ *
+ * VERIF_EV(event, "k1,k2", v1, v2)          one trace event with integer fields
+ * VERIF_EVS(event, str, "k1,k2", v1, v2)    same, plus one string field (char* UTF-8/ASCII)
+ *
+ * An event is delivered to the installed sink (a function pointer, null by default, so the
+ * hooks cost one load and one branch when nobody listens). verifOpenTrace(path) installs the
+ * built-in ndjson sink; it is installed automatically by XMLPlatformUtils::Initialize when the
+ * environment variable XERCES_VERIF_TRACE names a file. Without the define every macro
+ * expands to nothing.
+ */
+#if !defined(XERCESC_INCLUDE_GUARD_VERIFHOOKS_HPP)
+#define XERCESC_INCLUDE_GUARD_VERIFHOOKS_HPP
+
+#ifdef XERCES_VERIF_HOOKS
+
+#include <xercesc/util/XercesDefs.hpp>
+
+namespace XERCES_CPP_NAMESPACE {
+
+typedef void (*VerifSinkFn)(const char* ev, const char* str, const char* keys, const long long* vals, int n);
+
+extern XMLUTIL_EXPORT VerifSinkFn gVerifSink;
+// optional scheduling callback (forced interleavings): called at VERIF_SCHED(site) points
+typedef void (*VerifSchedFn)(const char* site);
+extern XMLUTIL_EXPORT VerifSchedFn gVerifSched;
+
+XMLUTIL_EXPORT bool verifOpenTrace(const char* path);   // install the built-in ndjson sink
+XMLUTIL_EXPORT void verifCloseTrace();                  // flush, close, uninstall
+XMLUTIL_EXPORT void verifFlushTrace();
+XMLUTIL_EXPORT void verifRaw(const char* jsonLine);     // harness-side events into the same stream
+XMLUTIL_EXPORT int  verifThreadIndex();                 // small per-thread index used in the "t" field
+
+}
+
+#define VERIF_EV(ev, keys, ...) \
+    do { if (XERCES_CPP_NAMESPACE::gVerifSink) { const long long verif_vals_[] = { __VA_ARGS__ }; \
+         XERCES_CPP_NAMESPACE::gVerifSink(ev, 0, keys, verif_vals_, (int)(sizeof(verif_vals_) / sizeof(verif_vals_[0]))); } } while (0)
+#define VERIF_EVS(ev, str, keys, ...) \
+    do { if (XERCES_CPP_NAMESPACE::gVerifSink) { const long long verif_vals_[] = { __VA_ARGS__ }; \
+         XERCES_CPP_NAMESPACE::gVerifSink(ev, str, keys, verif_vals_, (int)(sizeof(verif_vals_) / sizeof(verif_vals_[0]))); } } while (0)
+#define VERIF_EV0(ev) \
+    do { if (XERCES_CPP_NAMESPACE::gVerifSink) XERCES_CPP_NAMESPACE::gVerifSink(ev, 0, "", 0, 0); } while (0)
+#define VERIF_SCHED(site) \
+    do { if (XERCES_CPP_NAMESPACE::gVerifSched) XERCES_CPP_NAMESPACE::gVerifSched(site); } while (0)
+
+#else
+
+#define VERIF_EV(ev, keys, ...) ((void)0)
+#define VERIF_EVS(ev, str, keys, ...) ((void)0)
+#define VERIF_EV0(ev) ((void)0)
+#define VERIF_SCHED(site) ((void)0)
+
+#endif
+
+#endif
